@@ -575,6 +575,11 @@ where
                 // remove this assertion, and send regex `\<`. Instead of unescaping `\<` into `<`.
                 // still it may be worthwhile to ensure that we notice such a change.
                 debug_assert!(regex_syntax::is_meta_character('<').not());
+                // With `ignore_whitespace` the regex engine skips white space (`char::is_whitespace`),
+                // so there an escaped white-space character is special to it and must stay escaped.
+                // `regex` accepts `\c` for ASCII white space only; the others are spelled `\x{..}`.
+                let ws_special =
+                    |c: char| lex_flags.ignore_whitespace == Some(true) && c.is_whitespace();
                 let re_str: &str = re.borrow();
                 let mut re_chars = re_str.char_indices();
 
@@ -586,7 +591,8 @@ where
                             if let Some((j, c2)) = re_chars.next() {
                                 let s = &re_str[j..];
                                 if !(regex_syntax::is_meta_character(c2)
-                                    || RE_LEX_ESC_LITERAL.is_match(s))
+                                    || RE_LEX_ESC_LITERAL.is_match(s)
+                                    || (c2.is_ascii() && ws_special(c2)))
                                 {
                                     break Some((i, s, j, c2));
                                 }
@@ -615,10 +621,18 @@ where
                             "\\b"
                         });
                         last_pos = j + 1;
-                    } else if regex_syntax::is_meta_character(c) || RE_LEX_ESC_LITERAL.is_match(s) {
+                    } else if regex_syntax::is_meta_character(c)
+                        || RE_LEX_ESC_LITERAL.is_match(s)
+                        || (c.is_ascii() && ws_special(c))
+                    {
                         // For both meta characters and literals we want to push the entire substring
                         // up to and including the c match back into the string still escaped.
                         unescaped.push_str(&re_str[last_pos..j + c.len_utf8()]);
+                        last_pos = j + c.len_utf8();
+                    } else if ws_special(c) {
+                        // Non-ASCII white space under `ignore_whitespace`: `\c` becomes `\x{..}`.
+                        unescaped.push_str(&re_str[last_pos..i]);
+                        unescaped.push_str(&format!("\\x{{{:X}}}", c as u32));
                         last_pos = j + c.len_utf8();
                     } else {
                         // Given '\c' in the original string, push 'c' to the new string.
